@@ -18,7 +18,7 @@ VARIABLES hist,         \* the commands issued so far
 
 hvars == <<vars, hist, act>>
 
-ActName(cmd) == IF cmd.op = "Cascade" THEN (IF StaleAbove(data, cmd.d) THEN "CascadeRemovesOrphans" ELSE "CascadeClean")
+ActName(cmd) == IF cmd.op = "Cascade" THEN (IF ~CascadeAccepted(data, out, cmd.d) THEN "CascadeRefused" ELSE IF StaleAbove(data, cmd.d) THEN "CascadeRemovesOrphans" ELSE "CascadeClean")
                 ELSE IF cmd.op = "Transform" THEN (IF StaleOut(out, data, cmd.d) THEN "TransformLeavesStale" ELSE "TransformClean")
                 ELSE cmd.op
 Step(cmd) == Do(cmd) /\ hist' = Append(hist, cmd) /\ act' = ActName(cmd)
@@ -58,8 +58,7 @@ Record == [hist |-> hist, act |-> act,
            orphans |-> SelectSeq(Order, LAMBDA p : p[1] < MaxDepth /\ Orphan(p)),
            feed |-> Feed,
            \* truth values of the statements the code does not keep (a FALSE is TLC's witness that the statement is refuted)
-           ideal |-> [CascadePrunesOnlyAfterShrink |-> CascadePrunesOnlyAfterShrink, NoShrinkNoStaleOutput |-> NoShrinkNoStaleOutput,
-                      NothingDeeperThanBase |-> NothingDeeperThanBase, NoStaleOutput |-> NoStaleOutput,
+           ideal |-> [NothingDeeperThanBase |-> NothingDeeperThanBase, NoStaleOutput |-> NoStaleOutput,
                       WtmlAlwaysDeepest |-> WtmlAlwaysDeepest, TransformCommutesWithMerge |-> TransformCommutesWithMerge]]
 Emit == PrintT(<<"S", ToJson(Record)>>)
 =============================================================================
